@@ -668,3 +668,52 @@ func VH22j_longrun() {
 	verif.Quiesce()
 	verif.Assert(verif.LiveGoroutines() == 0, "C10/longrun/goroutines-left-after-close")
 }
+
+// VH22k_inproc_busy: an inproc address is held by socket A; socket B's Listen
+// on it is refused (address in use), or B only creates a listener for it
+// without starting it. B's listener, or B itself, is then closed. A is not
+// affected: a dial to the address still reaches A and a message flows, and the
+// address is still taken for a third socket. When A finally closes, the address
+// is free.
+func VH22k_inproc_busy() {
+	lab := "C12/inproc-busy"
+	addr := "inproc://busy"
+	a := vp.New("pair")
+	verif.Assert(a.Listen(addr) == nil, lab+"/holder-listen")
+	verif.Quiesce()
+	b := vp.New("pair")
+	l, err := b.NewListener(addr, nil)
+	verif.Assert(err == nil, lab+"/new-listener")
+	if err != nil {
+		return
+	}
+	if verif.Choice("started", 2) == 1 {
+		verif.Assert(l.Listen() == mangos.ErrAddrInUse, lab+"/listen-on-busy-address-not-refused-with-address-in-use")
+	}
+	if verif.Choice("closes", 2) == 0 {
+		l.Close()
+	} else {
+		b.Close()
+	}
+	verif.Quiesce()
+	d := vp.New("pair")
+	verif.Assert(d.Dial(addr) == nil, lab+"/holder-of-the-address-unreachable-after-the-refused-listener-was-closed")
+	verif.Quiesce()
+	var got []byte
+	var rerr error
+	rg := verif.Go("recv", func() { got, rerr = a.Recv() })
+	sg := verif.Go("send", func() { d.Send([]byte{'o', 'k'}) })
+	verif.Quiesce()
+	verif.Assert(sg.Done() && rg.Done() && rerr == nil && len(got) == 2, lab+"/message-does-not-reach-the-holder-of-the-address")
+	c := vp.New("pair")
+	verif.Assert(c.Listen(addr) == mangos.ErrAddrInUse, lab+"/address-handed-out-twice")
+	a.Close()
+	verif.Quiesce()
+	verif.Assert(c.Listen(addr) == nil, lab+"/address-not-free-after-its-holder-closed")
+	verif.Reach("inproc-busy-checked")
+	for _, s := range []mangos.Socket{b, c, d} {
+		s.Close()
+	}
+	verif.Quiesce()
+	verif.Assert(verif.LiveGoroutines() == 0, "C10/inproc/goroutines-left-after-close")
+}
